@@ -4,7 +4,7 @@ ID=$1; shift
 D=$(mktemp -d /tmp/seedtree.XXXX)
 mkdir -p $D/pulser-core $D/pulser-simulation
 cp -r /repo/pulser-core/pulser $D/pulser-core/
-cp -r /repo/pulser-simulation/pulser_simulation $D/pulser-simulation/
+cp -r /repo/pulser-simulation/pulser_simulation $D/pulser-simulation/; cp /repo/VERSION.txt $D/ 2>/dev/null
 (cd $D && patch -p1 -s < /verif/seeded/$ID/patch.diff) || { echo "$ID PATCH-FAIL"; rm -rf $D; exit 9; }
 for prop in "$@"; do
   out=$(PYVC_ROOT=$D VERIF_NO_EVIDENCE=1 /verif/check $prop --tier quick 2>&1); rc=$?
